@@ -247,3 +247,32 @@ def covered_cells(entries, cuts):
                 cov.add(i)
                 break
     return cov
+
+
+# ------------------------------------------------- stale-state pre-steps
+
+
+def apply_pre(tier, spec, pre):
+    """Optionally use the tier once (a query that may fill caches) and then edit it in place with
+    deleteEntry; returns the spec describing the tier's current content."""
+    if not pre:
+        return spec
+    from vlib.pio import quiet
+
+    ents = list(tier.entries)
+    try:
+        with quiet():
+            tier.timestamps
+            if ents:
+                lo, hi = ents[0][0], ents[-1][-2]
+                if lo < hi:
+                    tier.crop(lo, hi, "lax", False)
+                    tier.eraseRegion(lo, hi, "truncate", False)
+    except Exception:  # noqa - the warm-up is not what is being judged
+        pass
+    if pre.get("delete") is not None and ents:
+        victim = ents[pre["delete"] % len(ents)]
+        tier.deleteEntry(victim)
+        new_entries = [list(e) for e in tier.entries]
+        return dict(spec, entries=new_entries)
+    return spec
